@@ -1292,23 +1292,50 @@ package moss
 //@     (cur != nil ==> (forall i int :: 0 <= i && i < len(cur.a) ==> segIfc(rv, i) == segIfc(cur, i))) &&
 //@     (b != nil && segLen(b.segment) > 0 ==> segIfc(rv, ite(cur != nil, len(cur.a), 0)) == ifaceOf(b.segment))
 
+// Child collections form a tree (ghost depth); a call on a child collection
+// only changes that child and what hangs below it.
+//@ pure abstract func collDepth(c *collection) int
+//@ assume-invariant collTree: forall p *collection, c string :: has(p.childCollections, c) ==> collDepth(p.childCollections[c]) == collDepth(p) + 1
+
 //@ func (m *collection) buildStackDirtyTop(b *batch, curStackTop *segmentStack) (rv *segmentStack)
-//@   props C03 C01 C02 C11
+//@   props C03 C01 C02 C11 C20
 //@   attr obligations ensures inv-entry inv-preserve P0 call-requires
-//@   attr only-labels fresh pushed ok
+//@   attr only-labels fresh pushed ok carried counter newIncar
 //@   requires m != nil && secOK(curStackTop) && (b != nil ==> b.segment != nil && segOK(b.segment))
 //@   modifies heap(collection.childCollections), heap(collection.highestIncarNum)
 //@   ensures @fresh rv != nil && fresh(rv) && fresh(arr(rv.a))
 //@   ensures @pushed pushedOn(rv, curStackTop, b)
 //@   ensures @ok stackOK(rv)
-//@   loop 1: modifies rv.childSegStacks, heap(collection.childCollections), heap(collection.highestIncarNum)
+//@   ensures @assume_subtree forall x *collection :: x != m && collDepth(x) <= collDepth(m) ==> x.childCollections == old(x.childCollections) && x.highestIncarNum == old(x.highestIncarNum) &&
+//@       (forall c string :: has(x.childCollections, c) == old(has(x.childCollections, c)) && x.childCollections[c] == old(x.childCollections[c]))
+//@   ensures @counter m.highestIncarNum >= old(m.highestIncarNum)
+//@   ensures @newIncar b != nil ==> (forall c string :: has(b.childBatches, c) && b.childBatches[c] != deletedChildBatchMarker && !old(has(m.childCollections, c)) ==>
+//@       has(m.childCollections, c) && m.childCollections[c].incarNum > old(m.highestIncarNum))
+//@   ensures @carried b == nil && curStackTop != nil ==> (forall c string :: has(curStackTop.childSegStacks, c) && old(has(m.childCollections, c)) &&
+//@       old(m.childCollections[c].incarNum) == curStackTop.childSegStacks[c].incarNum ==> has(rv.childSegStacks, c) && pushedOn(rv.childSegStacks[c], curStackTop.childSegStacks[c], nil))
+//@   loop 1: modifies rv.childSegStacks, heap(collection.childCollections), heap(collection.highestIncarNum), contents(m.childCollections)
 //@   loop 1: invariant rv != nil && fresh(rv) && fresh(arr(rv.a))
 //@   loop 1: invariant pushedOn(rv, curStackTop, b)
 //@   loop 1: invariant stackOK(rv)
+//@   loop 1: invariant @counter m.highestIncarNum >= old(m.highestIncarNum)
+//@   loop 1: invariant @inBatch forall c string :: visited(c) ==> has(b.childBatches, c)
+//@   loop 1: invariant @untouched forall c string :: !visited(c) ==> has(m.childCollections, c) == old(has(m.childCollections, c))
+//@   loop 1: invariant @created forall c string :: visited(c) && b.childBatches[c] != deletedChildBatchMarker ==> has(m.childCollections, c)
+//@   loop 1: invariant @newIncar forall c string :: visited(c) && b.childBatches[c] != deletedChildBatchMarker && !old(has(m.childCollections, c)) ==>
+//@       m.childCollections[c].incarNum > old(m.highestIncarNum)
 //@   loop 2: modifies rv.childSegStacks, heap(collection.childCollections), heap(collection.highestIncarNum)
 //@   loop 2: invariant rv != nil && fresh(rv) && fresh(arr(rv.a))
 //@   loop 2: invariant pushedOn(rv, curStackTop, b)
 //@   loop 2: invariant stackOK(rv)
+//@   loop 2: invariant @counter m.highestIncarNum >= old(m.highestIncarNum)
+//@   loop 2: invariant @newIncar b != nil ==> (forall c string :: has(b.childBatches, c) && b.childBatches[c] != deletedChildBatchMarker && !old(has(m.childCollections, c)) ==>
+//@       has(m.childCollections, c) && m.childCollections[c].incarNum > old(m.highestIncarNum))
+//@   loop 2: invariant rv.childSegStacks != nil ==> sinceLoop(rv.childSegStacks) || b != nil
+//@   loop 2: invariant @mKept b == nil ==> m.childCollections == old(m.childCollections) && (forall c string :: has(m.childCollections, c) == old(has(m.childCollections, c)) && m.childCollections[c] == old(m.childCollections[c]))
+//@   loop 2: invariant @onlyVisited b == nil ==> (forall c string :: has(rv.childSegStacks, c) ==> visited(c))
+//@   loop 2: invariant @inSrc forall c string :: visited(c) ==> has(curStackTop.childSegStacks, c)
+//@   loop 2: invariant @hasit b == nil ==> (forall c string :: visited(c) && old(has(m.childCollections, c)) && old(m.childCollections[c].incarNum) == curStackTop.childSegStacks[c].incarNum ==> has(rv.childSegStacks, c))
+//@   loop 2: invariant @carried b == nil ==> (forall c string :: visited(c) && old(has(m.childCollections, c)) && old(m.childCollections[c].incarNum) == curStackTop.childSegStacks[c].incarNum ==> pushedOn(rv.childSegStacks[c], curStackTop.childSegStacks[c], nil))
 
 // ExecuteBatch: one critical section installs the whole batch (its segment on
 // top of the top section, child segments in the child stacks of the same new
